@@ -1329,22 +1329,86 @@ func ruleStreamRequestsAnswered(p *Program, r *Report) {
 				sends[c.Block()] = true
 			}
 		})
-		// a cycle through the Recv block that avoids every Send block?
-		seen := map[*ssa.BasicBlock]bool{}
-		work := append([]*ssa.BasicBlock{}, recv.Block().Succs...)
-		unanswered := false
-		for len(work) > 0 {
-			b := work[len(work)-1]
-			work = work[:len(work)-1]
-			if seen[b] || sends[b] {
-				continue
+		// package-local helpers that are handed the stream and send on it: a call is an answering step unless the
+		// helper can return without having sent; those returns' constant results decide where the caller goes next
+		type stepT struct {
+			call   *ssa.Call
+			tuples [][]streamKonst
+		}
+		steps := map[*ssa.BasicBlock]stepT{}
+		ForEachInstr(fn, func(ins ssa.Instruction) {
+			c, ok := ins.(*ssa.Call)
+			if !ok {
+				return
 			}
-			seen[b] = true
-			if b == recv.Block() {
+			h := c.Call.StaticCallee()
+			if h == nil || h.Pkg != fn.Pkg || h.Blocks == nil {
+				return
+			}
+			for i, a := range c.Call.Args {
+				if a != recv.Call.Value || i >= len(h.Params) {
+					continue
+				}
+				hs := map[*ssa.BasicBlock]bool{}
+				ForEachInstr(h, func(i2 ssa.Instruction) {
+					if c2, ok := i2.(*ssa.Call); ok && c2.Call.IsInvoke() && c2.Call.Method.Name() == "Send" && c2.Call.Value == ssa.Value(h.Params[i]) {
+						hs[c2.Block()] = true
+					}
+				})
+				if len(hs) == 0 {
+					continue
+				}
+				steps[c.Block()] = stepT{c, streamUnansweredReturns(h, []*ssa.BasicBlock{h.Blocks[0]}, hs)}
+			}
+		})
+		// a cycle through the Recv block that avoids every Send block?
+		type item struct {
+			b    *ssa.BasicBlock
+			call *ssa.Call
+			t    []streamKonst
+		}
+		seen := map[*ssa.BasicBlock]bool{}
+		var work []item
+		succ := func(it item) {
+			if iff, ok := it.b.Instrs[len(it.b.Instrs)-1].(*ssa.If); ok && it.call != nil {
+				if bv, known := streamEvalCond(iff.Cond, it.call, it.t, 0); known {
+					k := 1
+					if bv {
+						k = 0
+					}
+					work = append(work, item{it.b.Succs[k], it.call, it.t})
+					return
+				}
+			}
+			for _, sb := range it.b.Succs {
+				work = append(work, item{sb, it.call, it.t})
+			}
+		}
+		succ(item{recv.Block(), nil, nil})
+		unanswered := false
+		for len(work) > 0 && !unanswered {
+			it := work[len(work)-1]
+			work = work[:len(work)-1]
+			if it.b == recv.Block() {
 				unanswered = true
 				break
 			}
-			work = append(work, b.Succs...)
+			if sends[it.b] {
+				continue
+			}
+			if st, isStep := steps[it.b]; isStep && it.call == nil {
+				for _, t := range st.tuples {
+					succ(item{it.b, st.call, t})
+				}
+				continue // otherwise the helper has sent
+			}
+			if seen[it.b] && it.call == nil {
+				continue
+			}
+			if it.call == nil {
+				seen[it.b] = true
+			}
+			succ(it)
 		}
 		r.Check(!unanswered, "answers@"+FnName(fn), "each iteration sends an acknowledgement or returns", fmt.Sprintf("%s can go from one Recv to the next without a Send on the stream: that request gets neither an acknowledgement nor a terminal error, so the client (which can only count acknowledgements) waits forever or attributes later acknowledgements to the wrong request", FnName(fn)), recv.Pos())
 	}
@@ -1489,6 +1553,128 @@ func ruleStreamRequestsAnswered(p *Program, r *Report) {
 }
 
 func init() { register("C17", Rule{"R17j", ruleStreamRequestsAnswered}) }
+
+// streamKonst: what is known about one result of a helper's return (a boolean constant, the nil constant, or nothing).
+type streamKonst struct {
+	known  bool
+	isNil  bool
+	nonNil bool // an error value returned under a test that established it non-nil
+	b      bool
+}
+
+// knownNonNilAt: v was tested `!= nil` on a branch that dominates block b (or is a freshly made error).
+func knownNonNilAt(v ssa.Value, b *ssa.BasicBlock) bool {
+	if c := CallOf(v); c != nil {
+		nm := CalleeName(&c.Call)
+		if strings.HasSuffix(nm, "fmt.Errorf") || strings.HasPrefix(nm, "errors.") || strings.Contains(nm, "go-errors/errors.") {
+			return true
+		}
+	}
+	for _, d := range b.Parent().Blocks {
+		iff, ok := d.Instrs[len(d.Instrs)-1].(*ssa.If)
+		if !ok {
+			continue
+		}
+		bo, ok := iff.Cond.(*ssa.BinOp)
+		if !ok || (bo.Op != token.NEQ && bo.Op != token.EQL) {
+			continue
+		}
+		var other ssa.Value
+		switch {
+		case bo.X == v:
+			other = bo.Y
+		case bo.Y == v:
+			other = bo.X
+		default:
+			continue
+		}
+		if !IsNilConst(other) {
+			continue
+		}
+		k := 0
+		if bo.Op == token.EQL {
+			k = 1
+		}
+		if t := d.Succs[k]; (t == b || t.Dominates(b)) && len(t.Preds) == 1 {
+			return true
+		}
+	}
+	return false
+}
+
+// streamUnansweredReturns: the result tuples of the returns of h reachable from start without passing a block that sends.
+func streamUnansweredReturns(h *ssa.Function, start []*ssa.BasicBlock, sends map[*ssa.BasicBlock]bool) [][]streamKonst {
+	var tuples [][]streamKonst
+	seen := map[*ssa.BasicBlock]bool{}
+	work := append([]*ssa.BasicBlock{}, start...)
+	for len(work) > 0 {
+		b := work[len(work)-1]
+		work = work[:len(work)-1]
+		if seen[b] || sends[b] {
+			// a block that sends: the Send may itself fail, but then the stream is broken and its error is returned
+			continue
+		}
+		seen[b] = true
+		if ret, ok := b.Instrs[len(b.Instrs)-1].(*ssa.Return); ok {
+			var t []streamKonst
+			for i := range ret.Results {
+				v := RetVal(ret, i)
+				k := streamKonst{}
+				if bv, isB := BoolConst(v); isB {
+					k = streamKonst{known: true, b: bv}
+				} else if IsNilConst(v) {
+					k = streamKonst{known: true, isNil: true}
+				} else if isErrorType(v.Type()) && knownNonNilAt(v, b) {
+					k = streamKonst{known: true, nonNil: true}
+				}
+				t = append(t, k)
+			}
+			tuples = append(tuples, t)
+		}
+		work = append(work, b.Succs...)
+	}
+	return tuples
+}
+
+// streamEvalCond: the value of a branch condition of the caller when the results of call are the tuple t.
+func streamEvalCond(v ssa.Value, call *ssa.Call, t []streamKonst, depth int) (bool, bool) {
+	if depth > 4 {
+		return false, false
+	}
+	resOf := func(x ssa.Value) (streamKonst, bool) {
+		if ex, ok := x.(*ssa.Extract); ok && ex.Tuple == ssa.Value(call) && ex.Index < len(t) {
+			return t[ex.Index], true
+		}
+		if x == ssa.Value(call) && len(t) == 1 {
+			return t[0], true
+		}
+		return streamKonst{}, false
+	}
+	if k, ok := resOf(v); ok && k.known && !k.isNil && !k.nonNil {
+		return k.b, true
+	}
+	switch x := v.(type) {
+	case *ssa.UnOp:
+		if x.Op == token.NOT {
+			bv, ok := streamEvalCond(x.X, call, t, depth+1)
+			return !bv, ok
+		}
+	case *ssa.BinOp:
+		if x.Op == token.EQL || x.Op == token.NEQ {
+			for _, pr := range [][2]ssa.Value{{x.X, x.Y}, {x.Y, x.X}} {
+				if k, ok := resOf(pr[0]); ok && k.known && IsNilConst(pr[1]) {
+					if k.isNil {
+						return x.Op == token.EQL, true
+					}
+					if k.nonNil {
+						return x.Op == token.NEQ, true
+					}
+				}
+			}
+		}
+	}
+	return false, false
+}
 
 // R17k: no lock shared with an observer callback is held across a rendezvous with the engine.  Observer callbacks
 // (the function values given to Engine.Observe) run on the engine goroutine, in the middle of a notification round.
